@@ -2,12 +2,13 @@
    Statements only.  `can_progress c s` = some step is enabled that is neither a timer nor a free
    choice of the environment: an internal step, a step the implementation performs by itself, or
    the return of a Run/Stop/Reload/IsRunning call that a contract-abiding runnable owes. *)
-From Coq Require Import List Bool Arith.
+From Coq Require Import List Bool Arith Lia.
 From GS Require Import LTS Supervisor SupAccept SupProps SupInv SupOnce SupCensus SupProgress SupMeasure.
 Import ListNotations.
 
-(* Provided the runnables behave like the bundled ones (Run returns after Stop or cancellation;
-   Stop blocks at most until its Run has been invoked and has returned - both Stop styles are
+(* Provided the runnables behave like the bundled ones (`good c`: no Run stays inside forever once it
+   was told to stop or its context ended - a Run that returns by itself, with or without an error, is
+   covered; Stop blocks at most until its Run has been invoked and has returned - both Stop styles are
    covered), then in EVERY reachable state in which the shutdown body has started and is not done,
    progress is possible without the shutdown timeout: no deadlock and no time-lock, whatever the
    trigger mix, the number of runnables, and whether shutdown began during start-up. *)
@@ -57,7 +58,7 @@ Definition c02_cfg : config :=
                    stop_style := StopUntilRunDone; run_exit := ExitOnSignal; held_sub := false |} ];
      startup_may_fire := false; shutdown_may_fire := false |}.
 Example C02_ex_good : good c02_cfg.
-Proof. intros i Hi. destruct i; [reflexivity|cbn in Hi; inversion Hi; inversion H0]. Qed.
+Proof. intros i Hi. destruct i; [discriminate|cbn in Hi; inversion Hi; inversion H0]. Qed.
 Example C02_ex_in_stop :
   exists s, run (step c02_cfg) (init c02_cfg)
               [LLaunch 0; LRunCall 0; LCall 1 OpShutdown; LCallerGo 1; LStopCall 0] = Some s
@@ -91,7 +92,7 @@ Theorem C02_bounded : forall c ls s s',
 Proof. exact sup_c02_bounded. Qed.
 
 (* Every maximal execution of the implementation after shutdown start (from a reachable state, with
-   runnables that exit when signalled) has at most mu steps, and where it can go no further the
+   runnables satisfying `good c`: run_exit <> ExitNever) has at most mu steps, and where it can go no further the
    shutdown body is done and Run() HAS RETURNED. *)
 Theorem C02_maximal_execution_returns : forall c s ls s',
   good c -> 0 < nrun c -> reachable_sup c s -> sd s <> SdNot ->
@@ -112,6 +113,78 @@ Print Assumptions C02_measure_env.
 Print Assumptions C02_bounded.
 Print Assumptions C02_maximal_execution_returns.
 Print Assumptions C02_stuck_returned.
+
+(* The child contract `good c` is "no Run stays inside forever" (run_exit <> ExitNever): runnables whose
+   Run returns BY ITSELF, with a real error, are covered - i.e. the triggers "a runnable returning an
+   error" and "a start-up failure".  Two witnesses, each satisfying ALL hypotheses of
+   C02_no_deadlock_no_timelock, C02_maximal_execution_returns and C02_stuck_returned at once. *)
+
+(* (a) a lifecycle-style runnable whose Run fails by itself while the supervisor is in reap() *)
+Definition c02_free_spec (st : bool) (ss : sstyle) : rspec :=
+  {| stateable := st; reloadable := false; rsender := false; ssender := false;
+     stop_style := ss; run_exit := ExitFree; held_sub := false |}.
+Definition c02_free_cfg : config :=
+  {| specs := [c02_free_spec false StopUntilRunDone]; startup_may_fire := false; shutdown_may_fire := false |}.
+Definition c02_free_pre : list label :=
+  [LLaunch 0; LRunCall 0; LRunRet 0 (Some (7, false)); LErrSend 0; LReapErr; LMainShutdown].
+Definition c02_free_rest : list label :=
+  [LStopCall 0; LStopRet 0; LSdCancel; LSdWgDone; LMainReturn (ResErr 7)].
+Definition c02_free_mid : state :=
+  match run (step c02_free_cfg) (init c02_free_cfg) c02_free_pre with Some s => s | None => init c02_free_cfg end.
+Definition c02_free_final : state :=
+  match run (step c02_free_cfg) c02_free_mid c02_free_rest with Some s => s | None => init c02_free_cfg end.
+Example C02_ex_free_good : good c02_free_cfg /\ 0 < nrun c02_free_cfg.
+Proof. split; [|cbn; auto]. intros i Hi. destruct i; [discriminate|cbn in Hi; inversion Hi; inversion H0]. Qed.
+Example C02_ex_error_exit_all_hypotheses :
+  good c02_free_cfg /\ 0 < nrun c02_free_cfg /\
+  reachable_sup c02_free_cfg c02_free_mid /\ sd c02_free_mid <> SdNot /\
+  run (step c02_free_cfg) c02_free_mid c02_free_rest = Some c02_free_final /\
+  forallb is_system c02_free_rest = true /\
+  reachable_sup c02_free_cfg c02_free_final /\ sd c02_free_final <> SdNot /\
+  system_stuck c02_free_cfg c02_free_final /\
+  main c02_free_final = MReturned (ResErr 7) /\ callers c02_free_final = [].
+Proof.
+  split; [exact (proj1 C02_ex_free_good)|]. split; [exact (proj2 C02_ex_free_good)|].
+  split; [exists c02_free_pre; vm_compute; reflexivity|]. split; [vm_compute; discriminate|].
+  split; [vm_compute; reflexivity|]. split; [reflexivity|].
+  split; [exists (c02_free_pre ++ c02_free_rest); vm_compute; reflexivity|].
+  split; [vm_compute; discriminate|].
+  split; [apply mu_zero_stuck; [vm_compute; discriminate|vm_compute; reflexivity]|].
+  split; vm_compute; reflexivity.
+Qed.
+
+(* (b) a start-up failure: Stateable runnable 0 fails while Run() waits at its readiness gate; runnable 1
+   (lifecycle-style Stop) is never started, hence never stopped; Run() returns the error *)
+Definition c02_sf_cfg : config :=
+  {| specs := [c02_free_spec true StopUntilRunDone; c02_free_spec false StopUntilRunDone];
+     startup_may_fire := false; shutdown_may_fire := false |}.
+Definition c02_sf_pre : list label :=
+  [LLaunch 0; LRunStore 0; LRunCall 0; LPoll 0 false; LRunRet 0 (Some (9, false)); LErrSend 0; LGateErr 0; LMainShutdown].
+Definition c02_sf_rest : list label :=
+  [LStopCall 0; LStopRet 0; LSdCancel; LStmExit; LSdWgDone; LMainReturn (ResErr 9)].
+Definition c02_sf_mid : state :=
+  match run (step c02_sf_cfg) (init c02_sf_cfg) c02_sf_pre with Some s => s | None => init c02_sf_cfg end.
+Definition c02_sf_final : state :=
+  match run (step c02_sf_cfg) c02_sf_mid c02_sf_rest with Some s => s | None => init c02_sf_cfg end.
+Example C02_ex_startup_failure_all_hypotheses :
+  good c02_sf_cfg /\ 0 < nrun c02_sf_cfg /\
+  reachable_sup c02_sf_cfg c02_sf_mid /\ sd c02_sf_mid = SdNext 1 /\
+  run (step c02_sf_cfg) c02_sf_mid c02_sf_rest = Some c02_sf_final /\
+  forallb is_system c02_sf_rest = true /\
+  reachable_sup c02_sf_cfg c02_sf_final /\ sd c02_sf_final <> SdNot /\
+  system_stuck c02_sf_cfg c02_sf_final /\
+  main c02_sf_final = MReturned (ResErr 9) /\ launched c02_sf_final = 1 /\
+  stop_evs (rev (hist c02_sf_final)) = canon_stops 1.
+Proof.
+  split; [intros i Hi; destruct i as [|[|i]]; [discriminate|discriminate|cbn in Hi; lia]|].
+  split; [cbn; auto|].
+  split; [exists c02_sf_pre; vm_compute; reflexivity|]. split; [vm_compute; reflexivity|].
+  split; [vm_compute; reflexivity|]. split; [reflexivity|].
+  split; [exists (c02_sf_pre ++ c02_sf_rest); vm_compute; reflexivity|].
+  split; [vm_compute; discriminate|].
+  split; [apply mu_zero_stuck; [vm_compute; discriminate|vm_compute; reflexivity]|].
+  split; [vm_compute; reflexivity|]. split; vm_compute; reflexivity.
+Qed.
 
 (* non-vacuity: a complete shutdown of c02_cfg; the measure goes from 13 to 0 in 9 implementation
    steps, and with measure 0 no implementation step is enabled *)
